@@ -16,39 +16,46 @@ open XorSpace
 section basis
 variable {σ : Type} [XorSpace σ] [DecidableEq σ]
 
-/-- `act T P` (run with `k` bits of fuel) vanishes on `emb (2^i)` for every `i < w`. -/
-def basisCheck (T : σ → σ) (P k : Nat) {w : Nat} (emb : BitVec w → σ) : Bool :=
-  (List.range w).all fun i => decide (actRun T k P zero (emb (BitVec.twoPow w i)) = zero)
+theorem basisCheck_sound {T : σ → σ} {P k : Nat} {w : Nat} {emb : BitVec w → σ} {lo cnt : Nat}
+    (hk : P < 2 ^ k) (h : basisCheck T P k emb lo cnt = true) :
+    ∀ i, lo ≤ i → i < lo + cnt → act T P (emb (BitVec.twoPow w i)) = zero := by
+  intro i h1 h2
+  have h3 := (List.all_eq_true.mp h) i (List.mem_range'_1.mpr ⟨h1, h2⟩)
+  have h4 := of_decide_eq_true h3
+  rwa [actRun_eq T k P _ _ hk, zero_xor] at h4
 
-theorem basisCheck_sound {T : σ → σ} {P k : Nat} {w : Nat} {emb : BitVec w → σ}
-    (hk : P < 2 ^ k) (h : basisCheck T P k emb = true) :
+/-- cover `0 ≤ i < w` by chunks of `chunk` indices -/
+theorem basisCheck_cover {T : σ → σ} {P k : Nat} {w : Nat} {emb : BitVec w → σ}
+    (hk : P < 2 ^ k) (chunk : Nat) (hc : 0 < chunk)
+    (h : ∀ c, c * chunk < w → basisCheck T P k emb (c * chunk) chunk = true) :
     ∀ i, i < w → act T P (emb (BitVec.twoPow w i)) = zero := by
   intro i hi
-  have h1 := (List.all_eq_true.mp h) i (List.mem_range.mpr hi)
-  have h2 := of_decide_eq_true h1
-  rwa [actRun_eq T k P _ _ hk, zero_xor] at h2
+  have h1 : i / chunk * chunk ≤ i := Nat.div_mul_le_self i chunk
+  have h2 : i < i / chunk * chunk + chunk := by
+    have := Nat.lt_div_mul_add (a := i) hc
+    omega
+  exact basisCheck_sound hk (h (i / chunk) (by omega)) i h1 h2
 
 end basis
 
-theorem annih_S2 {w : Nat} {T : S2 w → S2 w} (hT : IsAdd T) {P k : Nat} (hk : P < 2 ^ k)
-    (h0 : basisCheck T P k (fun a => (⟨a, 0⟩ : S2 w)) = true)
-    (h1 : basisCheck T P k (fun a => (⟨0, a⟩ : S2 w)) = true) (s : S2 w) :
+theorem annih_S2 {w : Nat} {T : S2 w → S2 w} (hT : IsAdd T) {P : Nat}
+    (h0 : ∀ i, i < w → act T P (⟨BitVec.twoPow w i, 0⟩ : S2 w) = zero)
+    (h1 : ∀ i, i < w → act T P (⟨0, BitVec.twoPow w i⟩ : S2 w) = zero) (s : S2 w) :
     act T P s = zero :=
-  S2.eq_zero_of_basis (act_add hT P) (basisCheck_sound hk h0) (basisCheck_sound hk h1) s
+  S2.eq_zero_of_basis (act_add hT P) h0 h1 s
 
-theorem annih_S4 {w : Nat} {T : S4 w → S4 w} (hT : IsAdd T) {P k : Nat} (hk : P < 2 ^ k)
-    (h0 : basisCheck T P k (fun a => (⟨a, 0, 0, 0⟩ : S4 w)) = true)
-    (h1 : basisCheck T P k (fun a => (⟨0, a, 0, 0⟩ : S4 w)) = true)
-    (h2 : basisCheck T P k (fun a => (⟨0, 0, a, 0⟩ : S4 w)) = true)
-    (h3 : basisCheck T P k (fun a => (⟨0, 0, 0, a⟩ : S4 w)) = true) (s : S4 w) :
+theorem annih_S4 {w : Nat} {T : S4 w → S4 w} (hT : IsAdd T) {P : Nat}
+    (h0 : ∀ i, i < w → act T P (⟨BitVec.twoPow w i, 0, 0, 0⟩ : S4 w) = zero)
+    (h1 : ∀ i, i < w → act T P (⟨0, BitVec.twoPow w i, 0, 0⟩ : S4 w) = zero)
+    (h2 : ∀ i, i < w → act T P (⟨0, 0, BitVec.twoPow w i, 0⟩ : S4 w) = zero)
+    (h3 : ∀ i, i < w → act T P (⟨0, 0, 0, BitVec.twoPow w i⟩ : S4 w) = zero) (s : S4 w) :
     act T P s = zero :=
-  S4.eq_zero_of_basis (act_add hT P) (basisCheck_sound hk h0) (basisCheck_sound hk h1)
-    (basisCheck_sound hk h2) (basisCheck_sound hk h3) s
+  S4.eq_zero_of_basis (act_add hT P) h0 h1 h2 h3 s
 
-theorem annih_S8 {T : S8 → S8} (hT : IsAdd T) {P k : Nat} (hk : P < 2 ^ k)
-    (h : ∀ j, j < 8 → basisCheck T P k (S8.single j) = true) (s : S8) :
+theorem annih_S8 {T : S8 → S8} (hT : IsAdd T) {P : Nat}
+    (h : ∀ j, j < 8 → ∀ i, i < 64 → act T P (S8.single j (BitVec.twoPow 64 i)) = zero) (s : S8) :
     act T P s = zero :=
-  S8.eq_zero_of_basis (act_add hT P) (fun j hj => basisCheck_sound hk (h j hj)) s
+  S8.eq_zero_of_basis (act_add hT P) h s
 
 /-! ## consequences of `PolyMod` -/
 
@@ -110,10 +117,6 @@ theorem iter_after_of_eq_iter (hj : ∀ s, j s = iter f K s) (i : Nat) (s : α) 
 
 end corollaries
 
-/-- Certificate that `x^(N/p) - 1` is a unit modulo `P`: the value `r = x^(N/p) mod P` and an
-    inverse `inv` of `r + 1`. -/
-def CofCert (P n N p : Nat) : Prop :=
-  ∃ r inv, powx P n n (N / p) 1 = r ∧ inv < 2 ^ n ∧ mulmod P n n (r ^^^ 1) inv 0 = 1
 
 namespace PolyMod
 variable {σ : Type} [XorSpace σ] {T : σ → σ} {P n : Nat}
